@@ -1369,6 +1369,57 @@ def check_tables(ctx, rng, ms, schema, good, bad_objs, s, detail, codec="struct"
                 ctx.violation("table/append-differs", f"{kind}.append(table[j]) stored different metadata bytes: "
                                                       f"{[r.hex() for r in rows[n:]][:3]} expected "
                                                       f"{[r.hex() for r in want_rows][:3]}", detail)
+        # cross-schema row assignment: a lazily decoded row that comes from a table with ANOTHER schema must be decoded
+        # with its own schema and then validated and encoded with the destination's (objects that violate the
+        # destination schema are rejected, conforming ones are stored in the destination codec)
+        if n >= 1:
+            snap = (table.num_rows, bytes(np.asarray(table.metadata).tobytes()), table.metadata_offset.tobytes())
+            src = table.copy()
+            src.metadata_schema = tskit.MetadataSchema(None)
+            src.packset_metadata([b"\x00\x01raw"] * src.num_rows)
+            ctx.count("table/cross-schema-setitem")
+            try:
+                table[0] = src[0]
+                ctx.violation("table/cross-schema-setitem-accepted/raw-bytes",
+                              f"{kind}[0] = row of a schema-less table (metadata b'\\x00\\x01raw') was accepted by a table "
+                              f"with schema {s}", detail)
+            except Exception:
+                pass
+            after = (table.num_rows, bytes(np.asarray(table.metadata).tobytes()), table.metadata_offset.tobytes())
+            if after != snap:
+                ctx.violation("table/changed-by-rejected-object", f"{kind}[0] = foreign row raised or not, but the table "
+                                                                    f"changed", detail)
+                return
+            # a JSON-coded source carrying the same objects: the destination must re-encode them with its own codec
+            try:
+                jbytes = [tskit.canonical_json(g[0]).encode() for g in good[:n]]
+                json.loads(jbytes[0])
+            except Exception:
+                jbytes = None
+            if jbytes is not None and codec == "struct" and all(g[2] is not None for g in good[:n]):
+                src2 = table.copy()
+                src2.truncate(n)
+                src2.metadata_schema = tskit.MetadataSchema({"codec": "json"})
+                src2.packset_metadata(jbytes)
+                ok = True
+                for j in range(n):
+                    try:
+                        table[j] = src2[j]
+                    except Exception as e:
+                        if deep_eq(json.loads(jbytes[j]), good[j][0]):  # JSON kept the object intact, so it conforms
+                            ctx.violation("table/cross-schema-setitem-rejected",
+                                          f"{kind}[{j}] = row from a JSON-coded table holding the conforming object "
+                                          f"{jdump(good[j][0])} raised {e!r}", detail)
+                        ok = False
+                        break
+                if ok:
+                    rows2 = column_rows(table)
+                    for j in range(n):
+                        if deep_eq(json.loads(jbytes[j]), good[j][0]) and rows2[j] != good[j][1]:
+                            ctx.violation("table/cross-schema-setitem-differs",
+                                          f"{kind}[{j}] = row from a JSON-coded table stored {rows2[j].hex()}, the destination's "
+                                          f"encoding of {jdump(good[j][0])} is {good[j][1].hex()}", detail)
+                            return
         total = table.num_rows
         # metadata_vector on a top-level scalar key: np.array over row.metadata[key]
         if codec == "struct" and schema["properties"] and all(g[2] is not None for g in good) and total == 2 * n:
